@@ -367,6 +367,7 @@ qb_log_target_format(int32_t target,
 	uint32_t len;
 	int ralign;
 	int c;
+	int truncated = QB_FALSE;
 	struct qb_log_target *t = qb_log_target_get(target);
 
 	pthread_rwlock_rdlock(&_formatlock);
@@ -376,6 +377,10 @@ qb_log_target_format(int32_t target,
 	}
 
 	while ((c = t->format[format_buffer_idx])) {
+		if (output_buffer_idx + 1 >= t->max_line_length) {
+			truncated = QB_TRUE;
+			break;
+		}
 		cutoff = 0;
 		ralign = QB_FALSE;
 		if (c != '%') {
@@ -395,6 +400,10 @@ qb_log_target_format(int32_t target,
 			}
 			while (isdigit(t->format[format_buffer_idx])) {
 				format_buffer_idx += 1;
+			}
+			if (t->format[format_buffer_idx] == '\0') {
+				/* incomplete directive at the end of the format */
+				break;
 			}
 
 			switch (t->format[format_buffer_idx]) {
@@ -469,6 +478,10 @@ qb_log_target_format(int32_t target,
 				p = "";
 				break;
 			}
+			if ((cutoff ? cutoff : strlen(p)) >
+			    t->max_line_length - output_buffer_idx - 1) {
+				truncated = QB_TRUE;
+			}
 			len = _strcpy_cutoff(output_buffer + output_buffer_idx,
 					     p, cutoff, ralign,
 					     (t->max_line_length -
@@ -476,20 +489,18 @@ qb_log_target_format(int32_t target,
 			output_buffer_idx += len;
 			format_buffer_idx += 1;
 		}
-		if (output_buffer_idx >= t->max_line_length - 1) {
-			break;
-		}
 	}
 	pthread_rwlock_unlock(&_formatlock);
 
-	if (output_buffer[output_buffer_idx - 1] == '\n') {
+	if (output_buffer_idx > 0 &&
+	    output_buffer[output_buffer_idx - 1] == '\n') {
 		output_buffer[output_buffer_idx - 1] = '\0';
 	} else {
 		output_buffer[output_buffer_idx] = '\0';
 	}
 
 	/* Indicate truncation */
-	if (t->ellipsis && output_buffer_idx >= t->max_line_length-1) {
+	if (t->ellipsis && truncated && output_buffer_idx >= 3) {
 		output_buffer[output_buffer_idx-3] = '.';
 		output_buffer[output_buffer_idx-2] = '.';
 		output_buffer[output_buffer_idx-1] = '.';
